@@ -10,6 +10,24 @@ E3ENV = {"GODEBUG": "asynctimerchan=0"}
 
 SPECS = {}
 
+DNSMSG_COMMON = {"harness/dnsmsg/zz_verif_common_test.go": "internal/dnsmsg/zz_verif_common_test.go"}
+
+TRANSPORT_COMMON = {"harness/transport/zz_verif_common_test.go": "internal/upstream/transport/zz_verif_common_test.go"}
+E3ENGINES = ("choice", "report", "refdns", "env")
+
+UPSTREAM_COMMON = {"harness/upstream/zz_verif_common_test.go": "internal/upstream/zz_verif_common_test.go"}
+
+ROUTER_COMMON = {"harness/router/zz_verif_common_test.go": "app/router/zz_verif_common_test.go",
+                 "harness/router/zz_verif_seams_test.go": "app/router/zz_verif_seams_test.go"}
+
+def router_part(name, run, files, **kw):
+    d = dict(name=name, pkg="app/router", run=run, go="go1.26", env=E3ENV, gomaxprocs=1, engines=E3ENGINES,
+             files=dict(ROUTER_COMMON, **{"harness/router/" + f: "app/router/" + f for f in files}),
+             budget={"quick": 90, "thorough": 600})
+    d.update(kw)
+    return d
+
+
 SPECS["C11"] = dict(
     level="model_checking",
     engine="E1 enum",
@@ -30,7 +48,6 @@ SPECS["C11"] = dict(
                 params={"quick": {"MAXLEN": 3, "VARIANTS": 2}, "thorough": {"MAXLEN": 5, "VARIANTS": 2}})],
 )
 
-DNSMSG_COMMON = {"harness/dnsmsg/zz_verif_common_test.go": "internal/dnsmsg/zz_verif_common_test.go"}
 
 SPECS["C02"] = dict(
     level="model_checking",
@@ -64,7 +81,8 @@ SPECS["C09"] = dict(
     parts=[dict(name="pack", pkg="internal/dnsmsg", run="TestVerifC09", engines=("choice", "report", "refdns"),
                 files=dict(DNSMSG_COMMON, **{"harness/dnsmsg/zz_verif_c09_test.go": "internal/dnsmsg/zz_verif_c09_test.go",
                                               "harness/dnsmsg/zz_verif_c02_test.go": "internal/dnsmsg/zz_verif_c02_test.go"}),
-                params={"quick": {"MAXREC": 4}, "thorough": {"MAXREC": 5}})],
+                params={"quick": {"MAXREC": 4}, "thorough": {"MAXREC": 5}}),
+           router_part("listeners", "TestVerifC09Listeners", ["zz_verif_c09_test.go", "zz_verif_c03_test.go"], params={"quick": {"SHARDDEPTH": 3}, "thorough": {"SHARDDEPTH": 3}})],
 )
 
 SPECS["C01"] = dict(
@@ -83,8 +101,6 @@ SPECS["C01"] = dict(
                 params={"quick": {"CLASSLEN": 5, "PAIRS": 0}, "thorough": {"CLASSLEN": 6, "PAIRS": 1}})],
 )
 
-TRANSPORT_COMMON = {"harness/transport/zz_verif_common_test.go": "internal/upstream/transport/zz_verif_common_test.go"}
-E3ENGINES = ("choice", "report", "refdns", "env")
 
 SPECS["C05"] = dict(
     level="model_checking",
@@ -138,7 +154,6 @@ SPECS["C14"] = dict(
                 budget={"quick": 60, "thorough": 600})],
 )
 
-UPSTREAM_COMMON = {"harness/upstream/zz_verif_common_test.go": "internal/upstream/zz_verif_common_test.go"}
 
 SPECS["C16"] = dict(
     level="model_checking",
@@ -156,8 +171,6 @@ SPECS["C16"] = dict(
                 budget={"quick": 60, "thorough": 300})],
 )
 
-ROUTER_COMMON = {"harness/router/zz_verif_common_test.go": "app/router/zz_verif_common_test.go",
-                 "harness/router/zz_verif_seams_test.go": "app/router/zz_verif_seams_test.go"}
 
 SPECS["C03"] = dict(
     level="model_checking",
@@ -175,12 +188,6 @@ SPECS["C03"] = dict(
                 budget={"quick": 90, "thorough": 600})],
 )
 
-def router_part(name, run, files, **kw):
-    d = dict(name=name, pkg="app/router", run=run, go="go1.26", env=E3ENV, gomaxprocs=1, engines=E3ENGINES,
-             files=dict(ROUTER_COMMON, **{"harness/router/" + f: "app/router/" + f for f in files}),
-             budget={"quick": 90, "thorough": 600})
-    d.update(kw)
-    return d
 
 
 SPECS["C12"] = dict(
@@ -269,7 +276,7 @@ SPECS["C13"] = dict(
     rule="see evidence rule written by the harness",
     assumptions=["gnet delivers each TCP segment as one OnTraffic call and keeps unconsumed bytes buffered"],
     parts=[router_part("framing", "TestVerifC13", ["zz_verif_c13_test.go", "zz_verif_c03_test.go"],
-                       params={"quick": {"MAXK": 2, "RICH": 1, "FULLSEG": 0}, "thorough": {"MAXK": 3, "RICH": 0, "FULLSEG": 1}})],
+                       params={"quick": {"MAXK": 2, "COARSEK": 3, "FULLSEG": 0, "SHARDDEPTH": 4}, "thorough": {"MAXK": 2, "COARSEK": 4, "FULLSEG": 1, "SHARDDEPTH": 4}})],
 )
 
 SPECS["C15"] = dict(
